@@ -2477,7 +2477,8 @@ class CollocatedIntegratedOptimizationProblem(OptimizationProblem, metaclass=ABC
                             history_timeseries = history[canonical]
                         except KeyError:
                             if extrapolate:
-                                sym = variable_values[0]
+                                # Extrapolate the (unscaled) initial value backwards
+                                sym = nominal * variable_values[0]
                             else:
                                 sym = np.nan
                         else:
